@@ -84,7 +84,7 @@ def _file(ctx, case):
         if pairs is None:
             ctx.count("file_lines_unreadable_by_position")
             continue
-        for fam, v, tok in pairs:
+        for fam, v, tok, _src in pairs:
             if fam == "v4" and ref.untouched4(v):
                 continue
             try:
